@@ -10,6 +10,7 @@
    answer and request sequence (harness/cmd/c19), the URL data by translator/cmd/replication. *)
 From Coq Require Import ZArith List String Bool Lia.
 From Verif Require Import C19.Model C19.Proofs C19.ProofsUrl C19.Urls C19.GenOk C19.Orig.
+From Verif Require Import C19.Decode C19.DecodeGen C19.ProofsDecode.
 From VerifGen Require Import GenReplication.
 From VerifGen Require GenReplicationCode.
 From Verif Require C19.GenOkCode.
@@ -175,6 +176,64 @@ Theorem C19_time_formats :
   In "2006-01-02 15:04:05.999999999 +00:00"%string time_formats.
 Proof. exact gen_time_formats. Qed.
 
+(* 4'. State files are read as the planet server writes them.  [decode_interval_gen] /
+       [decode_changeset_gen] are the byte-level models of decodeIntervalState /
+       decodeChangesetState / decodeTime instantiated with the keys, separators, line numbers
+       and time formats re-read from the source on every run; a time is its civil fields.
+       [render_interval] is the osmosis state.txt (comment line, the seven keys, the time
+       stamp with escaped colons 2016-07-16T06\:14\:02Z); [render_changeset k] the three-line
+       changeset state with the time as "... .422137422 Z" (k=0) or "... +00:00" (k=1). *)
+Theorem C19_decode_time_roundtrip : forall k t, valid t -> (k = 0 \/ k = 1 \/ (k = 2 /\ t_nsec t = 0)) ->
+  decode_time time_formats (render_time k t) = Some t.
+Proof. intros k t V H. rewrite gen_time_formats_planet. exact (decode_time_planet k t V H). Qed.
+Print Assumptions C19_decode_time_roundtrip.
+
+Theorem C19_decode_interval_roundtrip : forall comment seq t txn txnq ready active,
+  valid t -> t_nsec t = 0 -> 0 <= seq < two63 -> 0 <= txn < two63 -> 0 <= txnq < two63 ->
+  nocharb nlc comment = true -> nocharb nlc ready = true -> nocharb nlc active = true ->
+  decode_interval_gen (render_interval comment seq t txn txnq ready active)
+  = Some (DOk {| i_seq := seq; i_time := t; i_txn := txn; i_txnq := txnq |}).
+Proof.
+  intros. rewrite decode_interval_gen_eq. f_equal. apply decode_interval_planet; assumption.
+Qed.
+Print Assumptions C19_decode_interval_roundtrip.
+
+Theorem C19_decode_changeset_roundtrip : forall k seq t, (k = 0 \/ k = 1) -> valid t -> 0 <= seq < two64 ->
+  decode_changeset_gen (render_changeset k seq t) = Some (DOk (seq, t)).
+Proof.
+  intros. rewrite decode_changeset_gen_eq. f_equal. apply decode_changeset_planet; assumption.
+Qed.
+Print Assumptions C19_decode_changeset_roundtrip.
+
+(* damaged files (missing or repeated lines, junk values, wrong separators, anything): when the
+   decoders return a state at all, its sequence number and time are those of the last line
+   carrying them (a valid number, a valid calendar time) or the zero value when no line does.
+   Other damage gives an error or -- see notes/C19.md -- an index-out-of-range panic ([DPanic]),
+   never an invented state. *)
+Theorem C19_decode_interval_no_garbage : forall keys fmts ls kv data st,
+  decode_interval keys fmts ls kv data = DOk st ->
+  (match last_val keys kv FSeq (split_on ls data) with
+   | Some v => exists n, atoi v = Some n /\ i_seq st = n mod two64
+   | None => i_seq st = 0
+   end) /\
+  (match last_val keys kv FTime (split_on ls data) with
+   | Some v => decode_time fmts v = Some (i_time st)
+   | None => i_time st = zero_tm
+   end).
+Proof. exact decode_interval_no_garbage. Qed.
+Print Assumptions C19_decode_interval_no_garbage.
+
+Theorem C19_decode_changeset_no_garbage : forall fmts ls kv data n t,
+  decode_changeset fmts ls kv 1 2 data = DOk (n, t) ->
+  exists l1 l2 p, nth_error (split_on ls data) 1 = Some l1 /\ nth_error (split_on ls data) 2 = Some l2 /\
+    decode_time fmts (trim (join kv (tl (split_on kv l1)))) = Some t /\
+    nth_error (split_on kv l2) 1 = Some p /\ parse_uint (trim p) = Some n.
+Proof. exact decode_changeset_no_garbage. Qed.
+
+Theorem C19_decode_time_real_day : forall fmts s t, decode_time fmts s = Some t ->
+  1 <= t_day t <= days_in (t_mon t) (t_year t).
+Proof. exact decode_time_real_day. Qed.
+
 (* 5. The code before the repair violated 1 and 2 (C19/Orig.v models it loop by loop):
       with the files next to the split missing no amount of fuel suffices, and t at or before
       the first state gives the second one.  Found against the real implementation, fixed by
@@ -234,6 +293,29 @@ Example ex_url : state_url 3 "https://planet.osm.org" 2008004
 Proof. vm_compute. reflexivity. Qed.
 
 Example ex_url_big : state_url 0 "" 1234567890 = Some "/replication/minute/1234/567/890.state.txt"%string.
+Proof. vm_compute. reflexivity. Qed.
+
+Definition ex_tm : tm := {| t_year := 2016; t_mon := 7; t_day := 16; t_hour := 6; t_min := 14; t_sec := 2; t_nsec := 0 |}.
+Example ex_valid_tm : valid ex_tm.
+Proof. apply valid_tm_valid. reflexivity. Qed.
+
+Example ex_interval_file :
+  render_interval "Sat Jul 16 06:14:03 UTC 2016" 2010580 ex_tm 836439235 836439235 "" "836439008" =
+  ("#Sat Jul 16 06:14:03 UTC 2016" ++ nl ++ "txnMaxQueried=836439235" ++ nl ++ "sequenceNumber=2010580" ++ nl ++
+   "timestamp=2016-07-16T06\:14\:02Z" ++ nl ++ "txnReadyList=" ++ nl ++ "txnMax=836439235" ++ nl ++
+   "txnActiveList=836439008" ++ nl)%string.
+Proof. vm_compute. reflexivity. Qed.
+
+Example ex_interval_decode :
+  decode_interval_gen ("sequenceNumber=12" ++ nl ++ "timestamp=2016-02-30T06\:14\:02Z" ++ nl)%string = Some DErr /\
+  decode_interval_gen ("sequenceNumber" ++ nl)%string = Some DPanic /\
+  decode_interval_gen ("timestamp= 2016-02-29T6\:14\:02.5Z " ++ nl)%string =
+    Some (DOk {| i_seq := 0; i_time := {| t_year := 2016; t_mon := 2; t_day := 29; t_hour := 6; t_min := 14; t_sec := 2; t_nsec := 500000000 |}; i_txn := 0; i_txnq := 0 |}).
+Proof. vm_compute. repeat split; reflexivity. Qed.
+
+Example ex_changeset_decode :
+  decode_changeset_gen ("---" ++ nl ++ "last_run: 2016-07-02 22:46:01.422137422 +00:00" ++ nl ++ "sequence: 1912325" ++ nl)%string
+  = Some (DOk (1912325, {| t_year := 2016; t_mon := 7; t_day := 2; t_hour := 22; t_min := 46; t_sec := 1; t_nsec := 422137422 |})).
 Proof. vm_compute. reflexivity. Qed.
 
 (* ==== BEGIN generated-code tie (added by the C11/C12 builder; files translator/cmd/replicationcode,
